@@ -32,6 +32,8 @@ import (
 type LifeParams struct {
 	Oracle string `json:"oracle"` // delivery | tuple | position
 	Segs   int    `json:"segs"`   // number of re-opens (1 or 2)
+	// EarlySave: a save (Commit) after the first segment's acknowledgements, i.e. BEFORE the branch changes
+	EarlySave bool `json:"early_save"`
 }
 
 func init() {
@@ -216,6 +218,34 @@ func lifeMain(p LifeParams) {
 		pending = append(pending, fresh...)
 	}
 
+	// the next save writes exactly the tracked position
+	checkSave := func() {
+		e.Stream.Save()
+		hist = append(hist, "save")
+		if P.seq > 0 {
+			d, ok := StoredDoc(c, srcBucket, e.O.Group, 0)
+			if !ok || d.Checkpoint == nil {
+				if want("position") {
+					fail("the save wrote nothing for vb0 although %d is settled", P.seq)
+				}
+			} else {
+				got := lifeTuple{seq: d.Checkpoint.SeqNo, uuid: uint64(d.Checkpoint.VbUUID)}
+				if d.Checkpoint.Snapshot != nil {
+					got.s0, got.s1 = d.Checkpoint.Snapshot.StartSeqNo, d.Checkpoint.Snapshot.EndSeqNo
+				}
+				if want("position") && got.seq != P.seq {
+					fail("the save wrote position %d, the furthest settled event is %d", got.seq, P.seq)
+				}
+				if want("tuple") && !handed[got] {
+					fail("the stored checkpoint %v is not the offset of any single delivered event (mixture)", got)
+				}
+				if want("tuple") && handed[got] && got.seq == P.seq && !settled[got] {
+					fail("the stored checkpoint %v is not the offset of a settled event (the furthest settled event carried %v)", got, P)
+				}
+			}
+		}
+	}
+
 	e.Stream.Open()
 	c.WaitIdle()
 	fresh := collect(0, 0)
@@ -244,6 +274,9 @@ func lifeMain(p LifeParams) {
 		fresh = append(append([]*lifeEvent{}, fresh[:2]...), fresh[3:]...)
 	}
 	pending = fresh
+	if p.EarlySave {
+		checkSave()
+	}
 	for seg := 1; seg <= p.Segs; seg++ {
 		resumed := P.seq
 		answer := vrt.Choose(3, true, "reopen-answer")
@@ -311,28 +344,7 @@ func lifeMain(p LifeParams) {
 		fresh := collect(seg, resumed)
 		acks(fresh)
 	}
-	// the next save writes exactly the tracked position
-	e.Stream.Save()
-	hist = append(hist, "save")
-	if P.seq > 0 {
-		d, ok := StoredDoc(c, srcBucket, e.O.Group, 0)
-		if !ok || d.Checkpoint == nil {
-			if want("position") {
-				fail("the save wrote nothing for vb0 although %d is settled", P.seq)
-			}
-		} else {
-			got := lifeTuple{seq: d.Checkpoint.SeqNo, uuid: uint64(d.Checkpoint.VbUUID)}
-			if d.Checkpoint.Snapshot != nil {
-				got.s0, got.s1 = d.Checkpoint.Snapshot.StartSeqNo, d.Checkpoint.Snapshot.EndSeqNo
-			}
-			if want("position") && got.seq != P.seq {
-				fail("the save wrote position %d, the furthest settled event is %d", got.seq, P.seq)
-			}
-			if want("tuple") && !handed[got] {
-				fail("the stored checkpoint %v is not the offset of any single delivered event (mixture)", got)
-			}
-		}
-	}
+	checkSave()
 	vrt.SetOutcome(fmt.Sprintf("%v", hist))
 }
 
